@@ -550,6 +550,38 @@ def rule_s11(ctx, F):
     ctx.floor("mode-taking calls inside mode-taking functions", n, 8)
 
 
+def rule_s12(ctx, F):
+    """S12: first-child-for-byte resumes the outer walk after an unsuccessful descent.  Before descending into a hidden
+    child, ts_node__first_child_for_byte remembers its iterator if siblings remain — a test of the iterator's index
+    against the child count of the node *being iterated*.  Measured against the wrong node (the child about to be
+    entered) the resume point is lost whenever that child is short, and a goal byte inside a hidden child's trailing hidden
+    token yields no child at all although a later sibling qualifies."""
+    fn = ctx.need_fn(F, "ts_node__first_child_for_byte", "S12")
+    if not fn:
+        return
+    it = [c for pt, c in fn.calls() if callee_name(c) == "ts_node_iterate_children"]
+    key = "first_child_for_byte:resume-point-measured-against-the-iterated-node"
+    if not it:
+        ctx.bad("S12", key, "ts_node__first_child_for_byte no longer iterates with ts_node_iterate_children")
+        return
+    iterated = arg_var(it[0], 0)
+    conds = []
+    for b in fn.blocks.values():
+        c = fn.cond(b.id)
+        if c is not None and "child_index" in show(c) and "ts_subtree_child_count" in show(c):
+            conds.append((b.id, c))
+    if not conds:
+        ctx.ok("S12", key, "no index-against-child-count test: the resume point is kept unconditionally", nontrivial=False)
+        return
+    for bid, c in conds:
+        subj = [arg_var(x, 0) for x in walk(c) if x.get("k") == "call" and callee_name(x) == "ts_node__subtree"]
+        if subj and all(v == iterated for v in subj):
+            ctx.ok("S12", key, "`%s` compares the iterator's index with the child count of `%s`, the node being iterated" % (show(c)[:70], iterated))
+        else:
+            ctx.bad("S12", key, "`%s` compares the iterator's position in `%s` with the child count of `%s`: the resume point is dropped when that node has few children, and "
+                    "ts_node_first_child_for_byte returns no child for a byte inside a hidden child's trailing hidden token" % (show(c)[:80], iterated, subj[0] if subj else "?"), {"site": fn.loc((bid, 0))})
+
+
 def rule_s8(ctx, F):
     """S8: a field lookup answers only from map entries of the requested field.  The entries of a production are
     sorted by field id; ts_node_child_by_field_id narrows [field_map, field_map_end) from both sides and then
@@ -629,6 +661,7 @@ def run(ctx):
         rule_s9(ctx, F)
         rule_s10(ctx, F)
         rule_s11(ctx, F)
+        rule_s12(ctx, F)
         rule_v1(ctx, F)
     return ctx.finish(
         "Sibling-agreement (CFG isomorphism under substitution), field-coverage and index-width rules over node.c / tree_cursor.c: byte- and point-range "
